@@ -363,6 +363,10 @@ class Exec:
         fr = Frame(fn)
         if len(args) != len(fn.params):
             raise Unsupported(f"arity mismatch calling {name}: {len(args)} vs {len(fn.params)}")
+        # closures without captures are zero-sized: rustc emits no assignment for them, the declared type is the value
+        for n, t in fn.locals.items():
+            if t.startswith("{closure@") and t in self.P.closures:
+                fr.locals[n] = Struct(t, [])
         for (n, _), a in zip(fn.params, args):
             fr.locals[n] = a
         bb = "bb0"
